@@ -35,6 +35,46 @@ CHECKS.update({
              "Chain/Masked/ParamTransform proved to compose uninterpreted component bijections correctly.",
         technique="contract-based deductive verification, z3 with exp/log axioms (goal-directed exponentiation)"),
 })
+T_SYM = "contract-based deductive verification: real code objects executed symbolically, obligations discharged by z3"
+CHECKS.update({
+    "C02": dict(cat="proof", ref="DESIGN.md §4 C02",
+        text="On the operator assembled by the REAL code (matrix denoted by the arrays handed to the sparse solver) z3 proves for all positive geometry/capacitance/membrane terms and all dt>0, per enumerated "
+             "structure: weighted column sums carry no axial term (charge conservation, with explicit branch-point multipliers), diag(D,mu)M symmetric (reciprocity, symmetric inverse cited), row sums 1+dt*a / 0 "
+             "(uniform stays uniform), M-matrix signs plus a generic discrete-maximum-principle row lemma (no overshoot), and the stimulus charge identity I*dt through the real _get_external_input.",
+        technique=T_SYM + " (QF_NRA) per static structure; structures bounded-exhaustive"),
+    "C05": dict(cat="proof", ref="DESIGN.md §4 C05",
+        text="Proof of the SIDE CONDITIONS under which jax.grad is the derivative, not of gradient agreement itself: strict definedness of every kernel on the differentiable path (both branches of every where), "
+             "routing of trainables through the real get_all_parameters/get_all_states (indices in range, groups disjoint, every unique_indices/indices_are_sorted promise true), and an AST scan for derivative-cutting constructs. "
+             "JAX's AD is assumed correct; finite-difference agreement is not checked.",
+        technique=T_SYM + "; AST transparency scan", note="Claims the side conditions only; JAX AD/scan/checkpoint/vmap assumed correct. " + BASE_NOTE),
+    "C06": dict(cat="proof", ref="DESIGN.md §4 C06",
+        text="The real integrate / nested_checkpoint_scan / _inner_nested_scan run with Module.step as an uninterpreted function: for every enumerated checkpoint layout the recording TERMS equal those of the plain call "
+             "(valid for every step function, model and input value); frame: no module attribute written, externals/external_inds/recordings untouched, repeated call identical; symbolic Module.step writes only its local state. jit/vmap equivalence is JAX's contract.",
+        technique="contract-based verification with an uninterpreted step function (ground EUF: structural equality of hash-consed terms) on the real integrate code"),
+    "C07": dict(cat="proof", ref="DESIGN.md §4 C07",
+        text="Same engine: one call of n1+n2 steps equals n1 steps plus continuation from the returned states (all splits, repeated split), manual init_fn/step_fn stepping yields the same state terms, returned state = state after the last returned time point for every checkpoint layout (known finding F6 for products larger than the run).",
+        technique="contract-based verification with an uninterpreted step function (ground EUF) on the real integrate / build_init_and_step_fn code"),
+    "C08": dict(cat="proof", ref="DESIGN.md §4 C08",
+        text="Time axis by the uninterpreted-step engine on the real integrate/add_stimuli/add_clamps for 110 API scenarios (row order, column k = state after k steps, sample k acts in step k+1, t_max padding/truncation, data_* = static); "
+             "clamps and the recording gather through the real Module.step / get_all_states on symbolic tables (known finding F5); stimulus charge identity is C02; step_current on a bounded grid of times with symbolic amplitudes.",
+        technique="uninterpreted-step engine (EUF) + symbolic execution of the real Module.step; bounded grid for step_current times"),
+    "C09": dict(cat="proof", ref="DESIGN.md §4 C09",
+        text="For each enumerated wiring the real to_jax/get_all_parameters/get_all_states/_step_synapse_state/_synapse_currents/gather_synapes/step run on symbolic .nodes/.edges; z3 proves that each edge row's state update and current use v[pre], v[post] and its own parameters, "
+             "that each compartment receives exactly the currents listed onto it (converted with the post area, divided by its capacitance), exact linearisation for currents affine in v_post, and vanishing for zero conductance. set() through edge views: bounded evaluation.",
+        technique=T_SYM + " per wiring; wirings enumerated"),
+    "C10": dict(cat="proof", ref="DESIGN.md §4 C10",
+        text="data_set and make_trainable+params are pushed through the real get_all_parameters/get_all_states with symbolic values: the arrays carry X exactly on the denoted rows (oracle from construction numbers) and the table symbol elsewhere, NaN cells stay absent, scatter indices in range; "
+             "set() and write_trainables are compared by exact native table diffs (bounded).",
+        technique=T_SYM + " (structural term equality) + bounded native table diffs for set/write_trainables"),
+    "C12": dict(cat="proof", ref="DESIGN.md §4 C12",
+        text="Assembly table contracts evaluated on a heterogeneous family (bounded); with symbolic tables the membrane terms, mechanism updates and axial conductances of every cell inside a synapse-free network are proved identical to the cell alone (rows renamed), likewise one-branch cell = branch and one-compartment branch = compartment; "
+             "the solver side on networks of different-depth cells by the C01 chain.",
+        technique=T_SYM + " (AC-normalised term equality, z3 fallback); C01 chain on networks; bounded table contracts"),
+    "C15": dict(cat="proof", ref="DESIGN.md §4 C15",
+        text="One-step consistency with exact constants for all real parameter values: uniform-cable coupling = centred second difference of (d/4Ra) d2V/dx2 / c_m with um, ohm cm, uF/cm2 converted exactly; sealed ends; single-compartment bwd_euler / crank_nicolson / fwd_euler updates of the real Module.step against tau = cm/(1000 g), R I = 100 I/(2 pi r l g); fixed point E + I/(gA). "
+             "Convergence orders follow by cited theorems; the limit itself is not mechanised.",
+        technique=T_SYM + " (QF_NRA identities with unit factors)"),
+})
 NOT_APPLICABLE = {
     "C18": "pickle/deepcopy round-trips are decided by CPython's object-graph serialisation, not by any repository function; no pre/postcondition "
            "within reach of a deductive verifier can express it (DESIGN.md §5). The picklability clause of the module invariant is covered under C19 as bounded.",
